@@ -203,10 +203,89 @@ fn main() {
 }
 """
 
+PARSE_MAIN = r"""#![allow(unused)]
+use substrate_fixed::types::*;
+use std::panic::catch_unwind;
+// independent oracle (u128 arithmetic): the literal grammar and the correctly rounded value
+fn digit(b: u8, radix: u32) -> Option<u128> {
+    let v = match b { b'0'..=b'9' => (b - b'0') as u32, b'a'..=b'f' => (b - b'a') as u32 + 10, b'A'..=b'F' => (b - b'A') as u32 + 10, _ => return None };
+    if v < radix { Some(v as u128) } else { None }
+}
+// Ok((neg, magnitude in units of 2^-f, rounded half to even)) or Err(message); None = outside the oracle's range (skipped)
+fn oracle(s: &str, radix: u32, f: u32) -> Option<Result<(bool, u128), &'static str>> {
+    let b = s.as_bytes();
+    let (mut neg, mut seen_point, mut any) = (false, false, false);
+    let (mut ip, mut fnum, mut fden): (u128, u128, u128) = (0, 0, 1);
+    let mut pending_zeros: u32 = 0;
+    for (i, &c) in b.iter().enumerate() {
+        if c == b'+' || c == b'-' { if i > 0 { return Some(Err("invalid digit found in string")); } neg = c == b'-'; continue; }
+        if c == b'.' { if seen_point { return Some(Err("more than one decimal point found in string")); } seen_point = true; continue; }
+        match digit(c, radix) {
+            None => return Some(Err("invalid digit found in string")),
+            Some(d) => { any = true;
+                if !seen_point { ip = ip.checked_mul(radix as u128)?.checked_add(d)?; if ip >= (1u128 << 40) { return None; } }
+                else if d == 0 { pending_zeros += 1; }
+                else { for _ in 0..pending_zeros { fnum = fnum.checked_mul(radix as u128)?; fden = fden.checked_mul(radix as u128)?; } pending_zeros = 0;
+                       fnum = fnum.checked_mul(radix as u128)?.checked_add(d)?; fden = fden.checked_mul(radix as u128)?; if fden >= (1u128 << 56) { return None; } } }
+        }
+    }
+    if !any { return Some(Err("string has no digits")); }
+    let num = (ip * fden + fnum) << f;        // < 2^(40 + 56 + 32)
+    let (q, r) = (num / fden, num % fden);
+    let a = if 2 * r > fden || (2 * r == fden && q % 2 == 1) { q + 1 } else { q };
+    Some(Ok((neg, a)))
+}
+macro_rules! sweep {
+    ($T:ty, $B:ty, $w:expr, $f:expr, $signed:expr) => {{
+        let ints = ["", "0", "000000000000", "1", "7", "0000000000001", "15", "127", "128", "255", "256", "32767", "32768", "65535", "65536", "2147483647", "2147483648", "4294967295", "4294967296", "10", "ff", "7f", "80", "100", "1111", "777"];
+        let fracs = ["", ".", ".0", ".000000000000", ".5", ".50", ".25", ".75", ".1", ".10000000", ".4999999999", ".5000000001", ".000000000001", ".8", ".08", ".4", ".7", ".f", ".ff8", ".008", ".0018", ".00008", ".0000800001", ".1000000000000001", ".101", ".0000000000000001", ".99999999", ".9999999999999"];
+        let signs = ["", "+", "-"];
+        let mut lits: Vec<String> = Vec::new();
+        for sg in signs.iter() { for i in ints.iter() { for fr in fracs.iter() { lits.push(format!("{}{}{}", sg, i, fr)); } } }
+        for m in ["+-1", "-+1", "1+", "1-", "1.2.3", "..", "1..", "0000000000-1.5", "000000000+ff.8", "00000000-0000", "0-1", "1e5", "1_0", " 1", "1 ", "0x1", "+", "-", ".", "+.", "-.", "", "1.-5", "1.+5", "--1", "1,5", "0.5.", ".5.5", "g", "1.g", "9", "8", "2", "a", "A.A", "f.F"].iter() { lits.push(m.to_string()); }
+        'outer: for radix in [10u32, 16, 8, 2] {
+            for s in lits.iter() {
+                let got = catch_unwind(|| match radix { 10 => <$T>::overflowing_from_str(s), 16 => <$T>::overflowing_from_str_hex(s), 8 => <$T>::overflowing_from_str_octal(s), _ => <$T>::overflowing_from_str_binary(s) });
+                let want = match oracle(s, radix, $f) { Some(x) => x, None => continue };
+                let got_s = match got { Err(_) => "PANIC".to_string(), Ok(r) => format!("{:?}", r.map(|(v, o)| (v.to_bits(), o)).map_err(|e| e.to_string())) };
+                let want_v: Result<($B, bool), String> = match want {
+                    Err(m) => Err(m.to_string()),
+                    Ok((neg, a)) => {
+                        let modulus: i128 = 1i128 << $w;
+                        let (lo, hi): (i128, i128) = if $signed { (-(1i128 << ($w - 1)), (1i128 << ($w - 1)) - 1) } else { (0, (1i128 << $w) - 1) };
+                        let sv: i128 = if neg { -(a as i128) } else { a as i128 };
+                        Ok((sv.rem_euclid(modulus) as u128 as $B, !(sv >= lo && sv <= hi)))
+                    }
+                };
+                let want_s = format!("{:?}", want_v);
+                if got_s != want_s {
+                    println!("FAIL|{}|{}|{:?}|{}|{}", stringify!($T), radix, s, got_s, want_s);
+                    break 'outer;
+                }
+            }
+        }
+    }};
+}
+fn main() {
+    std::panic::set_hook(Box::new(|_| {}));
+    sweep!(U8F8, u16, 16, 8, false);
+    sweep!(I8F8, i16, 16, 8, true);
+    sweep!(U0F16, u16, 16, 16, false);
+    sweep!(I16F16, i32, 32, 16, true);
+    sweep!(U16F16, u32, 32, 16, false);
+    sweep!(I32F0, i32, 32, 0, true);
+    sweep!(U0F32, u32, 32, 32, false);
+    sweep!(I1F31, i32, 32, 31, true);
+    sweep!(I4F4, i8, 8, 4, true);
+    sweep!(U4F4, u8, 8, 4, false);
+    println!("DONE");
+}
+"""
+
 
 def search(kind, repo, work, log):
     """-> counterexample dict (confirmed on the real code) or None"""
-    main_rs = {"sqrt": SQRT_MAIN, "log2": LOG2_MAIN}.get(kind, POWI_MAIN)
+    main_rs = {"sqrt": SQRT_MAIN, "log2": LOG2_MAIN, "parse": PARSE_MAIN}.get(kind, POWI_MAIN)
     outs = replay.run_rust(main_rs, repo, work, profiles=("release",))
     out = outs.get("release", "")
     if "DONE" not in out:
@@ -214,7 +293,7 @@ def search(kind, repo, work, log):
         return None
     fails = [ln.split("|") for ln in out.split("\n") if ln.startswith("FAIL|")]
     if not fails:
-        return {"from_verifier": False, "confirmed": False, "note": "native sweep of the real code (structured + 3000 pseudo-random operands per type pair) found no failing input"}
+        return {"from_verifier": False, "confirmed": False, "note": "native sweep of the real code (structured operands, see the program text) found no failing input"}
     f = fails[0]
     if kind == "sqrt":
         _, fn, b, what, sb, shift, df = f
@@ -222,6 +301,14 @@ def search(kind, repo, work, log):
         expr = ("{ let r = substrate_fixed::transcendental::%s(%s::from_bits(%s as %s)); match r { Ok(v) => (v.to_bits() as i128) >= 0 && within4_wide(v.to_bits() as u128, (%s as u128) << %s, %s) && (%s != 0 || v.to_bits() == 0), Err(_) => false } }"
                 % (fn, S, b, sb, b, shift, df, b))
         desc = "%s(%s::from_bits(%s)) %s" % (fn, S, b, what)
+    elif kind == "parse":
+        _, ty, radix, lit, got_s, want_s = [x for x in f[:6]]
+        meth = {"10": "overflowing_from_str", "16": "overflowing_from_str_hex", "8": "overflowing_from_str_octal", "2": "overflowing_from_str_binary"}[radix]
+        expr = "<%s>::%s(%s).map(|(v, o)| (v.to_bits(), o)).map_err(|e| e.to_string())" % (ty, meth, lit)
+        desc = "%s::%s(%s) gives %s, the grammar / correctly rounded literal requires %s" % (ty, meth, lit, got_s, want_s)
+        return {"from_verifier": False, "confirmed": True, "found_by": "native sweep of the real parser against an independent u128 oracle after the verifier rejected the obligation (tools/nativesweep.py)",
+                "failing_input": desc, "all_failing_types": ["%s radix %s: %s gives %s, required %s" % (x[1], x[2], x[3], x[4], x[5]) for x in fails[:12] if len(x) >= 6],
+                "witness": {"exprs": [expr], "expected": [want_s]}}
     elif kind == "log2":
         _, fn, b, what, sb, sf, df = f
         S = re.search(r"<(\w+),", fn).group(1)
